@@ -1,3 +1,4 @@
+import math
 """D-units: the real Search driver vs the model driver fed with the recorded proposals."""
 import random, math, copy
 import numpy as np
@@ -87,6 +88,18 @@ def spec_full(spec):
     s = spec_brief(spec)
     s["table"] = [[list(k), v[0], v[1]] for k, v in sorted(spec["table"].items())]
     return jsonable(s)
+
+
+def history_mismatch(o):
+    """the score history the driver keeps (score_l: what the stopping rules and the optimizer see) against the scores of search_data"""
+    a = [r["score"] for r in o["rows"]]
+    b = o["score_l"]
+    if len(a) != len(b):
+        return "score_l has %d entries, search_data %d rows" % (len(b), len(a))
+    for i, (x, y) in enumerate(zip(a, b)):
+        if not (x == y or (math.isnan(x) and math.isnan(y))):
+            return "step %d: search_data has score %r, the driver's score history has %r" % (i, x, y)
+    return None
 
 
 def eval_d_unit(unit, specs_results):
